@@ -468,7 +468,11 @@ func runTestOverlay(work, pkgPath, src, fileName, runPat string) (string, error)
 	ov, _ := json.Marshal(map[string]interface{}{"Replace": replace})
 	ovFile := filepath.Join(work, "overlay.json")
 	os.WriteFile(ovFile, ov, 0o644)
-	argv := []string{"test", "-modfile=" + alt, "-overlay=" + ovFile, "-vet=off", "-count=1", "-v", "-timeout", "120s", "-run", runPat}
+	timeout := "120s"
+	if t := os.Getenv("GOCV_TEST_TIMEOUT"); t != "" {
+		timeout = t
+	}
+	argv := []string{"test", "-modfile=" + alt, "-overlay=" + ovFile, "-vet=off", "-count=1", "-v", "-timeout", timeout, "-run", runPat}
 	if strings.Contains(src, "// gocv-flags: -race") {
 		argv = append(argv, "-race")
 	}
